@@ -7,12 +7,14 @@ mod reclayer;
 mod registry_sim;
 mod sites;
 mod span_sim;
+mod stack;
+mod stack_sim;
 
 use fw::{Engine, GenCtx};
 use serde_json::Value;
 use std::io::Read;
 
-static ENGINES: &[&(dyn Engine)] = &[&appender::AppenderEngine, &core_sim::CoreEngine, &registry_sim::RegistryEngine, &span_sim::SpanEngine];
+static ENGINES: &[&(dyn Engine)] = &[&appender::AppenderEngine, &core_sim::CoreEngine, &registry_sim::RegistryEngine, &span_sim::SpanEngine, &stack_sim::StackEngine];
 
 fn engine_for_prop(prop: &str) -> Option<&'static dyn Engine> {
     ENGINES.iter().copied().find(|e| e.props().contains(&prop))
@@ -30,6 +32,7 @@ fn budget(prop: &str) -> (u64, u64) {
         "C04" => (150_000, 3_000_000),
         "C03" => (120_000, 2_500_000),
         "C05" => (120_000, 2_500_000),
+        "C07" => (100_000, 2_000_000),
         "C06" => (120_000, 2_500_000),
         _ => (40_000, 1_000_000),
     }
